@@ -12,10 +12,12 @@ import GqlProofs.Props.C05
 
   Proved here (kernel-checked, about the definitions the driver runs):
 
-  * `C12_quote_roundtrip_gql`, `C12_quote_is_string_token`: the GraphQL quoting `gqlQuote`
+  * `C12_quote_roundtrip_bytes`, `C12_quote_is_string_token_bytes`: the GraphQL quoting `gqlQuote`
     (what `Value.String()` uses since the repair of finding R12a) is read back byte for byte by the
-    lexer model.  Exact hypothesis: the value is well-formed UTF-8; it cannot be dropped
-    (`C12_quote_illformed_counterexample`).
+    lexer model, for EVERY byte string — well-formed UTF-8 or not: the quoting writes every byte
+    ≥ 0x80 verbatim, and since the repair of `readString` the lexer keeps the source bytes of every
+    unescaped character also after an escape sequence.  (`C12_quote_roundtrip_gql`,
+    `C12_quote_is_string_token` are the well-formed special cases, kept with their statements.)
   * `C12_quote_strconv_counterexample`: `strconv.Quote` (the quoting before the repair, model
     `goQuote`) is NOT read back.
   * THE BRIDGE formatter text → tokens, for EVERY configuration whose indentation string consists
@@ -40,8 +42,9 @@ import GqlProofs.Props.C05
       conditions of C05 hold for parser output; `Formattable d` — decidable — stays a hypothesis).
 
   Hypothesis `Formattable d` (GqlProofs/Format/Formattable.lean): names are lexer Names, Int / Float
-  raw texts are one number lexeme of that kind, string values are well-formed UTF-8, required
-  selection sets are not empty.  The writer-state lemmas are in `GqlProofs/Format/Writer.lean`,
+  raw texts are one number lexeme of that kind, required selection sets are not empty.  String values
+  are ARBITRARY bytes (`C12_string_value_illformed_roundtrip`; before the repair of `readString`
+  well-formed UTF-8 had to be required).  The writer-state lemmas are in `GqlProofs/Format/Writer.lean`,
   the compositional lexing relation in `GqlProofs/Format/Lexes.lean`.
 -/
 open Gql Gql.Lexer Gql.Format Gql.Grammar Gql.Print Gql.Parser
@@ -78,17 +81,38 @@ theorem C12_quote_strconv_counterexample :
   rw [e] at h1
   simp [readToken, readTokenBody, Gql.Lexer.punct_quote, ws, isNameStart, isDigit, readStringLoop.eq_def, mkErr, escapeOut] at h1
 
-/-- The UTF-8 hypothesis of `C12_quote_roundtrip_gql` cannot be dropped: after an escape the lexer
-    re-encodes what it decodes, so an ill-formed byte comes back as U+FFFD. -/
-theorem C12_quote_illformed_counterexample :
-    ¬ (∀ (bs rest : Bytes) (q c : Cur) (acc : Bytes) (buf : Bool), ∃ t c',
-        readStringLoop q (gqlQuoteBody bs ++ 34 :: rest) c acc buf = .tok t rest c' ∧
-        t.value = acc.reverse ++ bs) := by
-  intro h
-  obtain ⟨t, c', h1, h2⟩ := h [10, 255] [] Cur.init Cur.init [] false
-  simp [gqlQuoteBody, gqlEscapeByte, readStringLoop.eq_def, decodeRune, encodeRune, runeError, escapeOut] at h1
-  rw [← h1.1] at h2
-  simp at h2
+/-- No UTF-8 hypothesis: for EVERY byte string `bs`, lexing the `gqlQuote` body of `bs` + closing
+    quote from any state of the string loop (any cursor, accumulator, buffer on or off) yields one
+    String token whose value is the accumulated prefix followed by `bs`, and leaves exactly `rest`.
+    (Before the repair of `readString` this failed for ill-formed UTF-8 after an escape: `"\n\xFF"`
+    came back as 0A EF BF BD.) -/
+theorem C12_quote_roundtrip_bytes (q : Cur) (rest : Bytes) (bs : Bytes) (c : Cur) (acc : Bytes) (buf : Bool) :
+    ∃ t c', readStringLoop q (gqlQuoteBody bs ++ 34 :: rest) c acc buf = .tok t rest c' ∧
+      t.kind = .string ∧ t.value = acc.reverse ++ bs :=
+  rsl_gqlQuoteBody_bytes q rest _ bs (Nat.le_refl _) c acc buf
+
+/-- `readToken` on `gqlQuote bs ++ rest`, for EVERY byte string `bs`, returns the String token with
+    value `bs` and the remaining input `rest`.  Side condition (needed, see
+    `C12_quote_empty_before_quote_counterexample`): the text is not mistaken for the start of a block
+    string, i.e. the value is non-empty or `rest` does not start with a quote. -/
+theorem C12_quote_is_string_token_bytes (bs : Bytes) (rest : Bytes) (c : Cur)
+    (hblk : bs ≠ [] ∨ rest.head? ≠ some 34) :
+    ∃ t c', readToken (gqlQuote bs ++ rest) c = .tok t rest c' ∧ t.kind = .string ∧ t.value = bs :=
+  readToken_gqlQuote_bytes bs rest c hblk
+
+/-- the side condition of `C12_quote_is_string_token_bytes` is needed: `""` directly followed by a
+    quote is the opening of a block string -/
+theorem C12_quote_empty_before_quote_counterexample :
+    ¬ ∃ t c', readToken (gqlQuote [] ++ [34]) Cur.init = .tok t [34] c' ∧ t.kind = .string := by
+  intro ⟨t, c', h, _⟩
+  simp [gqlQuote, gqlQuoteBody, readToken, ws, readTokenBody, Gql.Lexer.punct_quote, isNameStart, isDigit,
+    readBlockLoop.eq_def, mkErr] at h
+
+/-- the former counterexample, now positive: after the escape `\n` the ill-formed byte FF is kept -/
+example : ∃ t c', readStringLoop Cur.init (gqlQuoteBody [10, 255] ++ [34]) Cur.init [] false = .tok t [] c' ∧
+    t.value = [10, 255] := by
+  obtain ⟨t, c', h1, _, h3⟩ := C12_quote_roundtrip_bytes Cur.init [] [10, 255] Cur.init [] false
+  exact ⟨t, c', h1, by simpa using h3⟩
 
 /-- What the UNCHANGED tree does achieve (`renderValue` quotes with `quoteString` = `strconv.Quote`):
     a string value made of printable ASCII and the control characters BS, TAB, LF, FF, CR is
@@ -290,17 +314,18 @@ def C12_sampleDoc : QueryDoc :=
 
 example : Formattable C12_sampleDoc := by decide
 
-/-- FINDING (input that is not well-formed UTF-8): `strRaw` in `Formattable` cannot be dropped even
-    for PARSED documents.  The lexer keeps the bytes of a string literal as they are until the first
-    escape sequence, so `{a(s:"⇥\xFF")}` (a raw TAB, then the ill-formed byte FF) parses with the
-    value 09 FF; the formatter writes the TAB as `\t`, and after that escape the lexer re-encodes what
-    it decodes: the re-parsed value is 09 EF BF BD (TAB, U+FFFD).  The same with DEL (written as
-    `\u007f`) in place of TAB.  (Go: `rtq` on 7b6128733a2209ff22297d answers `tree-differs:A-V`.) -/
-theorem C12_string_value_illformed_counterexample :
+/-- The former FINDING, repaired (input that is not well-formed UTF-8): `{a(s:"⇥\xFF")}` (a raw TAB,
+    then the ill-formed byte FF) parses with the value 09 FF; the formatter writes the TAB as `\t`
+    and FF verbatim; the lexer reads `"\t\xFF"` back with the value 09 FF (before the repair of
+    `readString`: 09 EF BF BD, the re-encoded U+FFFD).  `Formattable` therefore no longer restricts
+    string values, although this one is not well-formed UTF-8 (`strRaw = false`). -/
+theorem C12_string_value_illformed_roundtrip :
     (∃ t c', readToken [34, 9, 255, 34] Cur.init = .tok t [] c' ∧ t.kind = .string ∧ t.value = [9, 255]) ∧
+    quoteString [9, 255] = [34, 92, 116, 255, 34] ∧
     (∃ t c', readToken (quoteString [9, 255]) Cur.init = .tok t [] c' ∧ t.kind = .string ∧
-      t.value = [9, 0xEF, 0xBF, 0xBD]) ∧ strRaw [9, 255] = false := by
-  refine ⟨?_, ?_, by decide⟩
+      t.value = [9, 255]) ∧ strRaw [9, 255] = false ∧
+    valueOk (.mk .string [9, 255] .nil Pos.zero) = true := by
+  refine ⟨?_, by decide, ?_, by decide, by decide⟩
   · simp [readToken, ws, readTokenBody, isNameStart, isDigit, readStringLoop.eq_def, decodeRune, runeError]
-  · simp [quoteString, gqlQuote, gqlQuoteBody, gqlEscapeByte, readToken, ws, readTokenBody, isNameStart, isDigit,
-      readStringLoop.eq_def, decodeRune, encodeRune, runeError, escapeOut]
+  · have := C12_quote_is_string_token_bytes [9, 255] [] Cur.init (Or.inl (by simp))
+    simpa [quoteString] using this
